@@ -453,7 +453,7 @@ func (e *Engine) calleeName(cc *ssa.CallCommon) string {
 // usesPathGhosts: does a clause mention ghost state that is local to one execution of a function body.
 func usesPathGhosts(expr string) bool {
 	for _, g := range []string{"spawned(", "calls(", "lastres(", "lastarg(", "lastsent(", "lastrecv(", "receivedfrom(", "wgwaited(", "lasterr(", "lastrand(",
-		"icalls(", "ilast(", "calledsince(", "atomics(", "apre(", "apost(", "aop(", "panicking(", "nolocks(", "held(", "heldW(", "heldR(", "heldcond(", "mapkey(", "mapidx(", "now(", "atentry(", "nevercancelled(", "captured("} {
+		"icalls(", "ilast(", "calledsince(", "atomics(", "apre(", "apost(", "aop(", "panicking(", "nolocks(", "held(", "heldW(", "heldR(", "heldcond(", "mapkey(", "mapidx(", "now(", "atentry(", "athead(", "nevercancelled(", "captured("} {
 		if strings.Contains(expr, g) {
 			return true
 		}
